@@ -28,6 +28,7 @@ def configs(tier):
     for kind in ("ode", "statio", "nonstatio"):
         for sub in (["kappa"], ["theta", "kappa"]):
             out.append(dict(part="system", kind=kind, batched=sub, B=B))
+        out.append(dict(part="system", kind=kind, batched=[], B=B, hetero=True))       # heterogeneous kappa inside a system
     return out
 
 
@@ -218,9 +219,16 @@ def run_system(cfg, R):
     from jinns.loss import SystemLossODE, SystemLossPDE, ODE, PDEStatio, PDENonStatio, LossWeightsODEDict, LossWeightsPDEDict
     from jinns.data._Batchs import ODEBatch, PDEStatioBatch, PDENonStatioBatch
     kind, batched, B = cfg["kind"], cfg["batched"], cfg["B"]
+    het_on = cfg.get("hetero", False)
     half, quarter = const(Fraction(1, 2), "Real"), const(Fraction(1, 4), "Real")
     ot_theta = lambda i, o, p: o * p.eq_params["theta"]
     d_in = {"ode": 1, "statio": 1, "nonstatio": 2}[kind]
+    if het_on:
+        if kind == "ode": hetd = {"kappa": lambda t, u, p: psi(2)(p.eq_params["kappa"] + 0.25 * jnp.ravel(t)[0])}
+        elif kind == "statio": hetd = {"kappa": lambda x, u, p: psi(2)(p.eq_params["kappa"] + 0.25 * x[0])}
+        else: hetd = {"kappa": lambda t, x, u, p: psi(2)(p.eq_params["kappa"] + 0.25 * t[0] + 3.0 * x[0])}
+    else:
+        hetd = None
     eq_type = {"ode": "ODE", "statio": "statio_PDE", "nonstatio": "nonstatio_PDE"}[kind]
     ukeys = ("a", "b")
     nets = {k: mk_pinn(d_in, 1, eq_type, deg=1, H=1, ot=ot_theta) for k in ukeys}
@@ -235,21 +243,21 @@ def run_system(cfg, R):
     if kind == "ode":
         class Eq(ODE):
             def equation(self, t, ud, pd): return body(t, None, ud, pd)
-        loss = SystemLossODE(u_dict=nets, dynamic_loss_dict={"a": Eq(Tmax=1), "b": Eq(Tmax=1)}, loss_weights=LossWeightsODEDict(dyn_loss=1.0, initial_condition=1.0, observations=1.0), params_dict=params)
+        loss = SystemLossODE(u_dict=nets, dynamic_loss_dict={"a": Eq(Tmax=1, eq_params_heterogeneity=hetd), "b": Eq(Tmax=1, eq_params_heterogeneity=hetd)}, loss_weights=LossWeightsODEDict(dyn_loss=1.0, initial_condition=1.0, observations=1.0), params_dict=params)
         batch = ODEBatch(temporal_batch=jnp.arange(1, B + 1) * 0.2)
     elif kind == "statio":
         class Eq(PDEStatio):
             def equation(self, x, ud, pd): return body(None, x, ud, pd)
-        loss = SystemLossPDE(u_dict=nets, dynamic_loss_dict={"a": Eq(Tmax=1), "b": Eq(Tmax=1)}, loss_weights=LossWeightsPDEDict(), params_dict=params)
+        loss = SystemLossPDE(u_dict=nets, dynamic_loss_dict={"a": Eq(Tmax=1, eq_params_heterogeneity=hetd), "b": Eq(Tmax=1, eq_params_heterogeneity=hetd)}, loss_weights=LossWeightsPDEDict(), params_dict=params)
         batch = PDEStatioBatch(inside_batch=jnp.arange(1, B + 1).reshape(B, 1) * 0.2, border_batch=None)
     else:
         class Eq(PDENonStatio):
             def equation(self, t, x, ud, pd): return body(t, x, ud, pd)
-        loss = SystemLossPDE(u_dict=nets, dynamic_loss_dict={"a": Eq(Tmax=1), "b": Eq(Tmax=1)}, loss_weights=LossWeightsPDEDict(), params_dict=params)
+        loss = SystemLossPDE(u_dict=nets, dynamic_loss_dict={"a": Eq(Tmax=1, eq_params_heterogeneity=hetd), "b": Eq(Tmax=1, eq_params_heterogeneity=hetd)}, loss_weights=LossWeightsPDEDict(), params_dict=params)
         batch = PDENonStatioBatch(times_x_inside_batch=jnp.arange(1, 2 * B + 1).reshape(B, 2) * 0.2, times_x_border_batch=None)
     pb = {k: (jnp.arange(1, B + 1).reshape(B, 1) * 0.3 + 0.1 * i) for i, k in enumerate(("theta", "kappa")) if k in batched}
-    batch = eqx.tree_at(lambda b: b.param_batch_dict, batch, pb, is_leaf=lambda x: x is None)
-    name = f"system/{kind}/{'+'.join(batched)}"
+    batch = eqx.tree_at(lambda b: b.param_batch_dict, batch, (pb if pb else None), is_leaf=lambda x: x is None)
+    name = f"system/{kind}/{'+'.join(batched) if batched else 'hetero-kappa'}"
     key = f"system:{kind}"
     R.note(functions=["jinns.loss.%s.evaluate (parameter batch)" % ("SystemLossODE" if kind == "ode" else "SystemLossPDE")])
     def f(loss, params, batch):
@@ -270,9 +278,14 @@ def run_system(cfg, R):
             else: z = list(b_.times_x_inside_batch[i]); lin = add(mul(half, z[0]), mul(quarter, z[1]))
             th = b_.param_batch_dict["theta"][i, 0] if "theta" in batched else p.eq_params["theta"][()]
             ka = b_.param_batch_dict["kappa"][i, 0] if "kappa" in batched else p.eq_params["kappa"][()]
+            if het_on:      # kappa is replaced, inside the equation, by its map evaluated at the current point
+                if kind == "ode": ka = uf("psi2_0", add(ka, mul(quarter, z[0])))
+                elif kind == "statio": ka = uf("psi2_0", add(ka, mul(quarter, z[0])))
+                else: ka = uf("psi2_0", add(add(ka, mul(quarter, z[0])), mul(const(3, "Real"), z[1])))
             arg = add(add(mul(D(p.nn_params["a"], z), th), mul(mul(const(2, "Real"), ka), mul(D(p.nn_params["b"], z), th))), lin)
             rows.append(sq(uf("psi0_0", arg)))
-        G = [("system dyn_loss evaluates sample i with row i of the batched keys (both equations)", eq(terms["dyn_loss"][()], mul(const(2, "Real"), mean(rows))))]
+        G = [(("system dyn_loss: heterogeneous parameter replaced inside every equation of the system" if het_on else
+               "system dyn_loss evaluates sample i with row i of the batched keys (both equations)"), eq(terms["dyn_loss"][()], mul(const(2, "Real"), mean(rows))))]
         same = all(tuple(np.shape(after[k])) == tuple(np.shape(before[k])) for k in before)
         G.append(("the caller's parameter dictionary is not modified by evaluate (shapes)", const(same, "Bool")))
         if same:
